@@ -161,6 +161,25 @@ def _assign_returns(stmts: List[ast.stmt], mk) -> Optional[List[ast.stmt]]:
         if isinstance(s, ast.Raise):
             out.append(s)
             return out
+        if isinstance(s, ast.Match) and any(_has_return(c.body) for c in s.cases):
+            # `match x: case A: return a  case B: return b` – every arm assigns the result; what follows the match is the arm of "no case matched"
+            rest = stmts[i + 1:]
+            cases = []
+            wildcard = False
+            for c in s.cases:
+                body = _assign_returns(list(c.body) if _ends_closed(c.body) else list(c.body) + rest, mk)
+                if body is None:
+                    return None
+                if isinstance(c.pattern, ast.MatchAs) and c.pattern.pattern is None and c.guard is None:
+                    wildcard = True
+                cases.append(ast.match_case(pattern=c.pattern, guard=c.guard, body=body or [ast.copy_location(ast.Pass(), s)]))
+            if not wildcard:
+                tail = _assign_returns(rest, mk)
+                if tail is None:
+                    return None
+                cases.append(ast.match_case(pattern=ast.MatchAs(pattern=None, name=None), guard=None, body=tail or [ast.copy_location(ast.Pass(), s)]))
+            out.append(ast.copy_location(ast.Match(subject=s.subject, cases=cases), s))
+            return out
         if _has_return([s]):
             return None
         out.append(s)
